@@ -374,12 +374,20 @@ def _roles(ctx, w, wcall, params):
     for k in wcall.keywords:
         if k.arg:
             passed[k.arg] = k.value
+    # arguments handed over through a local that is assigned once: classify by what was assigned
+    for p, v in list(passed.items()):
+        if isinstance(v, ast.Name):
+            defs = [s.value for s in ast.walk(w.node) if isinstance(s, ast.Assign) and any(isinstance(t, ast.Name) and t.id == v.id for t in s.targets)]
+            if len(defs) == 1 and isinstance(defs[0], (ast.Call, ast.JoinedStr)):
+                passed[p] = defs[0]
     wp = [p for p in w.params if p not in ("self",)]
     # the wrapper's own parameters: (tup, handlers, group, next_call) identified by use
     errs = [p for p, v in passed.items() if isinstance(v, ast.Call) and len(v.args) == 2]
     for p, v in passed.items():
         d = dotted(v)
-        if isinstance(v, ast.Call) and len(v.args) == 2:
+        if isinstance(v, ast.JoinedStr) or (isinstance(v, ast.Constant) and isinstance(v.value, str)) or (isinstance(v, ast.Call) and isinstance(v.func, ast.Attribute) and v.func.attr == "format") or (isinstance(v, ast.BinOp) and isinstance(v.op, (ast.Add, ast.Mod))):
+            roles[p] = "name"
+        elif isinstance(v, ast.Call) and len(v.args) == 2:
             second = v.args[1]
             if isinstance(second, ast.Tuple) and not second.elts:
                 roles[p] = "nerr"
